@@ -19,7 +19,11 @@ CHECKS = {
              "through the implementation and validated as traces (leg C). Exhaustive within the bounds; the right level "
              "because the property quantifies over all request histories. Beyond the bound: HolderAbs.tla, an abstraction "
              "of the holder side with unbounded commitment numbers, has an inductive invariant PROVED with TLAPS (38 "
-             "obligations) that implies C01 and C02, and TLC checks that Channel.tla refines it.",
+             "obligations) that implies C01 and C02, and TLC checks that Channel.tla refines it. Both the semantic "
+             "(phase 2) and the raw-transaction (phase 1) validation entry points are requests of the model, and the "
+             "protocol-handler leg drives the real handlers (protocol versions 4-6, transactional store) with the semantic "
+             "and the raw messages (ValidateCommitmentTx[2], RevokeCommitmentTx, GetPerCommitmentPoint, "
+             "SignCommitmentTx, SignLocalCommitmentTx2, SignMutualCloseTx[2], SignRemoteCommitmentTx[2]).",
         technique="TLA+ spec + TLC model checking; implementation state-graph extraction validated edge-by-edge and "
                   "monitored by TLC; simulated behaviours replayed and trace-validated"),
     "C02": dict(
@@ -79,7 +83,9 @@ CHECKS["C20"] = dict(
          "of node-level requests (allowlist, invoices, keysends, new/setup/forget channel, on-chain check+sign, heartbeat; "
          "every pair) judged by ConcNode.tla, and for pairs of commitment requests on different channels sharing a payment "
          "hash judged by ConcPayments.tla. 51 request kinds recorded (commitment, sweeps, mutual close, invoice signing, "
-         "persist_all, blocks with and without a transaction spending a channel's funding output, ...).",
+         "persist_all, blocks with and without a transaction spending a channel's funding output, ...). A clock-race "
+         "group lets time pass (one velocity bucket) while a request is preempted, on a node whose payment velocity "
+         "budget is used up.",
     technique="lock programs recorded from the real code model-checked in TLA+ (all interleavings); model deadlocks "
               "replayed on real threads; concurrent runs under imposed schedules checked for linearizability by TLC",
     note="the recorded lock programs are schedule-independent for the recorded data situations; log level off; the traced "
